@@ -77,6 +77,23 @@ def _remove_leading_empty_lines(s: str) -> str:
     return "\n".join(lines)
 
 
+def _is_supported_value(value: Any) -> bool:
+    """Check that a generated value only uses types that a flow variable can hold.
+
+    Literals like `...`, `b"x"` or `1j` are valid Python, but they can't be stored in the
+    state of a conversation.
+    """
+    if value is Ellipsis or isinstance(value, (bytes, complex)):
+        return False
+    if isinstance(value, (list, tuple, set, frozenset)):
+        return all(_is_supported_value(v) for v in value)
+    if isinstance(value, dict):
+        return all(
+            _is_supported_value(k) and _is_supported_value(v) for k, v in value.items()
+        )
+    return True
+
+
 class LLMGenerationActionsV2dotx(LLMGenerationActions):
     """Adapted version of LLMGenerationActions for Colang 2.x.
 
@@ -786,9 +803,14 @@ class LLMGenerationActionsV2dotx(LLMGenerationActions):
         log.info("Generated value for $%s: %s", var_name, value)
 
         try:
-            return literal_eval(value)
+            result = literal_eval(value)
         except Exception:
             raise Exception(f"Invalid LLM response: `{value}`")
+
+        if not _is_supported_value(result):
+            raise Exception(f"Invalid LLM response: `{value}`")
+
+        return result
 
     @action(name="GenerateFlowAction", is_system_action=True, execute_async=True)
     async def generate_flow(
